@@ -519,4 +519,59 @@ theorem inlineLoop_chain (sf : SymFile) (f : BFunc) (addr : Nat) (fuel depth ori
           · rw [show depth + (x :: xs).length = depth + 1 + xs.length by simp; omega]; exact h2
           · simp only [chainFrames, ← h3]; exact h.symm
 
+/-! ### no panic -/
+
+theorem inlineeAt_ok (inls : List Inl) (d a : Nat) : ∃ o, inlineeAt inls d a = .ok o := by
+  unfold inlineeAt
+  simp only
+  split
+  · rename_i s hc
+    -- the candidate cannot be a panic: both indices are in range
+    split at hc
+    · rename_i i hbs
+      obtain ⟨hi, _⟩ := binarySearchBy_found hbs
+      rw [List.getElem?_eq_getElem hi] at hc
+      cases hc
+    · cases hc
+    · rename_i i hbs
+      obtain ⟨hi, _⟩ := binarySearchBy_notFound_succ hbs
+      rw [List.getElem?_eq_getElem hi] at hc
+      cases hc
+  · exact ⟨_, rfl⟩
+  · split
+    · exact ⟨_, rfl⟩
+    · split
+      · exact ⟨_, rfl⟩
+      · split <;> exact ⟨_, rfl⟩
+
+theorem inlineLoop_ok (sf : SymFile) (f : BFunc) (addr : Nat) (fuel depth origin : Nat)
+    (hfuel : (f.inls.filter fun x => decide (depth ≤ x.depth)).length < fuel)
+    (hd : depth + (f.inls.filter fun x => decide (depth ≤ x.depth)).length < U32MAX) :
+    ∃ inl, inlineLoop sf f addr fuel depth origin = some (.ok inl) := by
+  induction fuel generalizing depth origin with
+  | zero => omega
+  | succ fuel ih =>
+    simp only [inlineLoop]
+    rw [if_neg (by omega)]
+    obtain ⟨o, ho⟩ := inlineeAt_ok f.inls depth addr
+    rw [ho]
+    cases o with
+    | none => exact ⟨_, rfl⟩
+    | some x =>
+      simp only
+      obtain ⟨hm, hdx, _⟩ := inlineeAt_sound ho
+      have hlt := filter_length_lt f.inls (fun y => decide (depth + 1 ≤ y.depth))
+        (fun y => decide (depth ≤ y.depth)) (by intro y hy; simp at hy ⊢; omega) x hm
+        (by simp; omega) (by simp; omega)
+      obtain ⟨rest, hrest⟩ := ih (depth + 1) x.origin (by omega) (by omega)
+      rw [hrest]
+      exact ⟨_, rfl⟩
+
+theorem setSource_ne_panic (sf : SymFile) (fr : Frame) (fid line address base : Nat)
+    (h : address + base ≤ U64MAX) : ∃ fr', setSource sf fr fid line address base = .ok fr' := by
+  unfold setSource
+  split
+  · exact ⟨_, rfl⟩
+  · rw [checkedAdd_of_le _ h]; exact ⟨_, rfl⟩
+
 end MdModel.Symbolize
